@@ -366,10 +366,25 @@ class Joiner:
         def interesting(X, x, fx):
             return x in X.lin or x in fx or bool(set(X.term(x).t) & fx)
 
-        ints = [(p, a, b) for p, a, b in ints if interesting(A, a, fa) or interesting(B, b, fb)]
+        # symbols that the two incoming paths know differently (refined by the branch that splits them)
+        diffsyms = []
+        if len(self.phis) <= 80:
+            for s_, iva in A.iv.items():
+                ivb = B.iv.get(s_)
+                if ivb is not None and ivb != iva and s_ not in phi_ids and s_ not in stale and J.st.range(s_) != (0, 1):
+                    if s_ in self.dead_in_a or s_ in self.dead_in_b:
+                        continue
+                    diffsyms.append(s_)
+                    if len(diffsyms) >= 6:
+                        break
+        if diffsyms:
+            # only phis whose two values actually differ are worth relating to them
+            ints = [(p, a, b) for p, a, b in ints if interesting(A, a, fa) or interesting(B, b, fb) or (A.ivof(a) != B.ivof(b) and D.size(A.ivof(a)) <= 4 and D.size(B.ivof(b)) <= 4)]
+        else:
+            ints = [(p, a, b) for p, a, b in ints if interesting(A, a, fa) or interesting(B, b, fb)]
         many = len(ints) > 12
         for p, a, b in ints[:24]:
-            cands = (related(A, a) | related(B, b) | {a, b}) - phi_ids - stale
+            cands = (related(A, a) | related(B, b) | {a, b} | set(diffsyms)) - phi_ids - stale
             cands = [t for t in cands if t in A.iv and t in B.iv and not isinstance(t, tuple)]
             for t in sorted(cands)[:8]:
                 ta, tb = A.term(t), B.term(t)
